@@ -95,13 +95,13 @@ def run(ctx):
                        "chain level: producer set is a function of the last block passed to consensus.Update (scripted per block); fewer than 128 errored blocks; "
                        "block body validation + execution abstracted to one bit; LIB rules not applied"]
     # ---- engines
-    rc, log, slotbin = ctx.go_test_binary(
-        "consensus/impl/dpos/slot", [os.path.join(vf.HARNESS, "engines/slot/zz_verif_slot_engine_test.go")],
+    rc, log, slotbin = c09chain.go_test_binary_cached(
+        ctx, "consensus/impl/dpos/slot", [os.path.join(vf.HARNESS, "engines/slot/zz_verif_slot_engine_test.go")],
         "slot.test", use_overlay=False)
     if rc != 0:
         raise RuntimeError("slot engine build failed:\n" + log[-3000:])
-    rc, log, dposbin = ctx.go_test_binary(
-        "consensus/impl/dpos", [os.path.join(vf.HARNESS, "engines/dpos/zz_verif_c09_engine_test.go")], "dpos_c09.test")
+    rc, log, dposbin = c09chain.go_test_binary_cached(
+        ctx, "consensus/impl/dpos", [os.path.join(vf.HARNESS, "engines/dpos/zz_verif_c09_engine_test.go")], "dpos_c09.test")
     if rc != 0:
         raise RuntimeError("dpos engine build failed:\n" + log[-3000:])
 
@@ -149,23 +149,9 @@ def run(ctx):
             "  Bool.eqb (is_future (from_unix_ns iv ts) (from_unix_ns iv n0)) r || Bool.eqb (is_future (from_unix_ns iv ts) (from_unix_ns iv n1)) r.",
             "Definition fcases := [%s]." % ";\n".join(fut),
             "Definition MF := Eval vm_compute in mismatches_from fut_ok fcases 0.", "Print MF."]
-    rc, out = ctx.coq_eval("slot_cases", "\n".join(txt))
+    slot_txt = txt            # evaluated below together with the block validity cases (one coqc start-up)
     evals = len(S) + len(R) + len(F)
-    mism = parse_all(out) if rc == 0 else None
     corr_broken = None
-    if mism is not None and len(mism) == nchunks + 2:
-        smis = []
-        for k in range(nchunks):
-            smis += [k * CH + i for i in mism[k]]
-        mism = [smis, mism[nchunks], mism[nchunks + 1]]
-    elif mism is not None:
-        mism = None
-    if mism is None:
-        corr_broken = ("slot correspondence could not be evaluated", out[-2000:])
-    else:
-        for name, idxs, src in zip(("slot", "relations", "future"), mism, (S, R, F)):
-            if idxs:
-                corr_broken = ("model/implementation differ on %s cases" % name, [src[i] for i in idxs[:5]])
     # direct predicate on the implementation: uniqueness of owner per instant, slot partition
     pred_fail = []
     for iv, n, ns, ms, pi, ni, bi in S:
@@ -271,19 +257,26 @@ def run(ctx):
             pred_fail.append(("timestamp two or more slots ahead of the clock accepted", dict(case=c, obs=o)))
         if c["signer"] not in c["members"] and o["valid"]:
             pred_fail.append(("non-member accepted as producer", c))
-    txt = ["From Coq Require Import ZArith List Bool.", "From Verif Require Import Dpos.Slot.", "Import ListNotations.",
-           "Open Scope Z_scope.",
+    txt = slot_txt + [
            "Definition vok (c : (Z * list Z * Z * Z * Z * Z) * (Z * bool * bool)) : bool :=",
            "  let '((iv, ids, signer, ts, n0, n1), o) := c in",
            "  valid_case_ok ((iv, ids, signer, ts, n0), o) || valid_case_ok ((iv, ids, signer, ts, n1), o).",
            "Definition cases := [%s]." % ";\n".join(items),
            "Definition M := Eval vm_compute in mismatches_from vok cases 0.", "Print M."]
-    rc, out = ctx.coq_eval("valid_cases", "\n".join(txt))
-    mism2 = parse_all(out) if rc == 0 else None
-    if mism2 is None:
-        corr_broken = corr_broken or ("validity correspondence could not be evaluated", out[-2000:])
-    elif mism2[0]:
-        corr_broken = corr_broken or ("model/implementation differ on block validity", [dict(case=dc[i], obs=obs[i]) for i in mism2[0][:5]])
+    rc, out = ctx.coq_eval("slot_valid_cases", "\n".join(txt))
+    mall = parse_all(out) if rc == 0 else None
+    if mall is None or len(mall) != nchunks + 3:
+        corr_broken = ("slot / validity correspondence could not be evaluated", out[-2000:])
+    else:
+        smis = []
+        for k in range(nchunks):
+            smis += [k * CH + i for i in mall[k]]
+        for name, idxs, src in zip(("slot", "relations", "future"), [smis, mall[nchunks], mall[nchunks + 1]], (S, R, F)):
+            if idxs:
+                corr_broken = ("model/implementation differ on %s cases" % name, [src[i] for i in idxs[:5]])
+        if mall[nchunks + 2]:
+            corr_broken = corr_broken or ("model/implementation differ on block validity",
+                                          [dict(case=dc[i], obs=obs[i]) for i in mall[nchunks + 2][:5]])
     ctx.sample({"block_case": dc[0], "obs": obs[0]})
     ctx.sample({"block_case": dc[-1], "obs": obs[-1]})
     evals += len(dc)
@@ -304,11 +297,7 @@ def run(ctx):
     t1 = time.time()
     chain_fail, chain_broken = chain_level(ctx)
     T["chain"] = round(time.time() - t1, 1)
-    t1 = time.time()
-    other_fail, other_broken = other_consensus(ctx)
-    pred_fail = pred_fail + other_fail
-    corr_broken = corr_broken or other_broken
-    T["raft+sbp"] = round(time.time() - t1, 1)
+
     pred_fail = chain_fail + pred_fail
     corr_broken = chain_broken or corr_broken
 
@@ -335,33 +324,43 @@ def chain_level(ctx):
     producer-set changes.  Engine B (package dpos): real ChainService + the real DPoS object, fixed set."""
     import time
     E = os.path.join(vf.HARNESS, "engines/c09chain")
-    rc, log, chainbin = ctx.go_test_binary("chain", [os.path.join(E, "zz_verif_c09chain_engine_test.go")], "c09chain.test")
+    rc, log, chainbin = c09chain.go_test_binary_cached(ctx, "chain", [os.path.join(E, "zz_verif_c09chain_engine_test.go")], "c09chain.test")
     if rc != 0:
         raise RuntimeError("c09chain engine build failed:\n" + log[-3000:])
-    rc, log, dposchainbin = ctx.go_test_binary(
-        "consensus/impl/dpos", [os.path.join(E, "zz_verif_c09dpos_engine_test.go")], "c09dpos.test",
+    rc, log, dposchainbin = c09chain.go_test_binary_cached(
+        ctx, "consensus/impl/dpos", [os.path.join(E, "zz_verif_c09dpos_engine_test.go")], "c09dpos.test",
         overlay_extra={"chain/zz_verif_c09_chain_shim.go": os.path.join(E, "zz_verif_c09_chain_shim.go")})
     if rc != 0:
         raise RuntimeError("c09 dpos-chain engine build failed:\n" + log[-3000:])
     quick = ctx.tier == "quick"
     corpus = c09chain.load_corpus(os.path.join(vf.VERIF, "corpus", "C09"))
     fam = c09chain.small_tree_family(["nonmember", "wrongslot", "wrongkey", "future"])
-    SA = corpus + (ctx.rng.sample(fam, 40) if quick else fam)
-    SA += [c09chain.random_scenario(ctx.rng, i) for i in range(110 if quick else 4000)]
+    SA = corpus + (ctx.rng.sample(fam, 30) if quick else fam)
+    SA += [c09chain.random_scenario(ctx.rng, i) for i in range(90 if quick else 4000)]
     SB = c09chain.for_real_dpos(corpus)
     if quick:
         SB = [sc for sc in SB if not any(op[0] == "W" for op in sc["ops"])]
     else:
         SB += c09chain.for_real_dpos(fam)
-    SB += [c09chain.random_scenario(ctx.rng, i, fixed=True) for i in range(50 if quick else 1500)]
+    SB += [c09chain.random_scenario(ctx.rng, i, fixed=True) for i in range(35 if quick else 1500)]
     fails, broken = [], None
     CHUNK = 400
     stats = {"arrivals": 0, "classes": {}, "nontriv": set()}
-    for label, binp, test, S in (("A", chainbin, "TestVerifC09ChainEngine", SA), ("B", dposchainbin, "TestVerifC09DposChainEngine", SB)):
-        for c0 in range(0, len(S), CHUNK):
-            part = S[c0:c0 + CHUNK]
+    f42 = c09chain.f42_fixed(ctx.repo)
+    other_txt, other_items, other_fail = other_consensus_cases(ctx)
+    fails += other_fail
+    engines = {"A": (chainbin, "TestVerifC09ChainEngine", SA), "B": (dposchainbin, "TestVerifC09DposChainEngine", SB)}
+    rounds = max((len(S) + CHUNK - 1) // CHUNK for _, _, S in engines.values())
+    for rnd in range(rounds):
+        texts, parts = list(c09chain.COQ_HEADER), []
+        if rnd == 0:
+            texts += other_txt
+        for label, (binp, test, S) in engines.items():
+            part = S[rnd * CHUNK:(rnd + 1) * CHUNK]
+            if not part:
+                continue
             t2 = time.time()
-            outs = c09chain.run_engine(ctx, binp, part, tag="c09chain%s%d" % (label, c0 // CHUNK), test=test)
+            outs = c09chain.run_engine(ctx, binp, part, tag="c09chain%s%d" % (label, rnd), test=test)
             ctx.cov["timing_s"]["chain_engine"] = round(ctx.cov["timing_s"].get("chain_engine", 0) + time.time() - t2, 1)
             for sc, out in zip(part, outs):
                 fails += c09chain.direct_predicates(sc, out)
@@ -371,9 +370,21 @@ def chain_level(ctx):
                     stats["nontriv"].add((ob["r"], c09chain.call_shape(ob["calls"])))
                 if label == "B" and out.get("lib", 0) != 0 and not broken:
                     broken = ("real DPoS: the LIB moved in scenario %s built to keep it at the genesis block" % sc["name"], dict(scenario=sc, lib=out.get("lib")))
-            txt, k = c09chain.coq_cases(part, outs)
-            rc, out = ctx.coq_eval("chain_cases%s%d" % (label, c0 // CHUNK), txt)
-            d = c09chain.parse_diffs(out, k) if rc == 0 else None
+            txt, k = c09chain.coq_cases(part, outs, f42=f42, prefix=label, header=False)
+            texts.append(txt)
+            parts.append((label, part, outs, k))
+            if rnd == 0 and label == "A":
+                ctx.sample({"chain_scenario": part[0]["name"], "blocks": outs[0]["blocks"],
+                            "arrivals": [{k2: v for k2, v in ob.items() if k2 in ("id", "r", "calls", "main", "orph")} for ob in outs[0]["obs"]]})
+        rc, out = ctx.coq_eval("chain_cases%d" % rnd, "\n".join(texts))
+        if rnd == 0:
+            m = parse_all_named(out, "MO") if rc == 0 else None
+            if m is None:
+                broken = broken or ("raft/sbp correspondence could not be evaluated", out[-2000:])
+            elif m:
+                broken = broken or ("raft_checks / sbp_checks differ from the implementation", [other_items[i] for i in m[:5]])
+        for label, part, outs, k in parts:
+            d = c09chain.parse_diffs(out, k, prefix=label) if rc == 0 else None
             if d is None or len(d) != len(part):
                 broken = broken or ("chain-level correspondence could not be evaluated", out[-2000:])
                 continue
@@ -381,9 +392,6 @@ def chain_level(ctx):
                 if x and not broken:
                     broken = ("model (Dpos/Accept.v) and ChainService differ at arrival %d of scenario %s (engine %s)" % (x - 1, sc["name"], label),
                               dict(scenario=sc, blocks=o["blocks"], arrivals=o["obs"][:x]))
-            if c0 == 0 and label == "A":
-                ctx.sample({"chain_scenario": part[0]["name"], "blocks": outs[0]["blocks"],
-                            "arrivals": [{k2: v for k2, v in ob.items() if k2 in ("id", "r", "calls", "main", "orph")} for ob in outs[0]["obs"]]})
     narr = stats["arrivals"]
     ctx.cov["evaluations"] = ctx.cov.get("evaluations", 0) + narr
     ctx.cov["traces_validated_against_impl"] = ctx.cov.get("traces_validated_against_impl", 0) + narr
@@ -391,24 +399,24 @@ def chain_level(ctx):
     ctx.cov["rule"] = ctx.cov.get("rule", "") + ("; chain level: arrivals of signed blocks at a real ChainService (trees <= 7 blocks, every "
                                                  "defect kind, any order, duplicates, producer-set changes), distinct = distinct (result class, "
                                                  "sequence of consensus call kinds) pairs")
-    ctx.cov["chain_level"] = {"scenarios_adapter_engine": len(SA), "scenarios_real_dpos_engine": len(SB), "corpus": len(corpus),
+    ctx.cov["chain_level"] = {"source_flag_f42_reorg_restores_consensus": c09chain.f42_fixed(ctx.repo), "scenarios_adapter_engine": len(SA), "scenarios_real_dpos_engine": len(SB), "corpus": len(corpus),
                               "arrivals": narr, "result_classes": stats["classes"], "distinct_(result,call-shape)": len(stats["nontriv"])}
     return fails, broken
 
 
-def other_consensus(ctx):
+def other_consensus_cases(ctx):
     """raftv2 / sbp: their VerifyTimestamp / VerifySign / IsBlockValid on real signed blocks against
-    the predicates raft_checks / sbp_checks of Dpos/Accept.v.  The DPoS clauses they do not check are
-    theorems (C09_raft_..._refuted, C09_sbp_all_clauses_refuted), not findings: the property is
-    written for DPoS."""
-    fails, broken = [], None
+    the predicates raft_checks / sbp_checks of Dpos/Accept.v (evaluated together with the chain cases).
+    The DPoS clauses they do not check are theorems (C09_raft_..._refuted, C09_sbp_all_clauses_refuted),
+    not findings: the property is written for DPoS."""
+    fails = []
     cases = [{"sig": sg, "future": f} for sg in ("ok", "nosig", "wrongkey", "badkey", "mut:Timestamp", "mut:BlockNo",
                                                   "mut:CoinbaseAccount", "mut:Sign") for f in (0, 10)]
     items = []
     B = lambda b: "true" if b else "false"
     for k, (pkg, eng, name) in enumerate((("consensus/impl/raftv2", "zz_verif_c09raft_engine_test.go", "c09raft.test"),
                                           ("consensus/impl/sbp", "zz_verif_c09sbp_engine_test.go", "c09sbp.test"))):
-        rc, log, binp = ctx.go_test_binary(pkg, [os.path.join(vf.HARNESS, "engines/c09chain", eng)], name)
+        rc, log, binp = c09chain.go_test_binary_cached(ctx, pkg, [os.path.join(vf.HARNESS, "engines/c09chain", eng)], name)
         if rc != 0:
             raise RuntimeError("%s engine build failed:\n%s" % (pkg, log[-3000:]))
         fin = os.path.join(ctx.workdir, name + ".in")
@@ -429,18 +437,22 @@ def other_consensus(ctx):
             # the one clause raft does enforce, directly on the implementation
             if k == 0 and o["sign_ok"] and not o["sig_real"]:
                 fails.append(("C09:raft-bad-signature-accepted", "raftv2 VerifySign accepts a block whose signature does not verify", dict(case=c, obs=o)))
-    txt = ["From Coq Require Import ZArith List Bool.", "From Verif Require Import Dpos.Slot Dpos.Accept.", "Import ListNotations.",
-           "Open Scope Z_scope.", "Definition cases := [%s]." % ";\n".join(items),
-           "Definition MO := Eval vm_compute in mismatches_from other_case_ok cases 0.", "Print MO."]
-    rc, out = ctx.coq_eval("other_cases", "\n".join(txt))
-    m = parse_all(out) if rc == 0 else None
-    if not m:
-        broken = ("raft/sbp correspondence could not be evaluated", out[-2000:])
-    elif m[0]:
-        broken = ("raft_checks / sbp_checks differ from the implementation", [items[i] for i in m[0][:5]])
+    txt = ["Definition ocases := [%s]." % ";\n".join(items),
+           "Definition MO := Eval vm_compute in mismatches_from other_case_ok ocases 0.", "Print MO."]
     ctx.cov["evaluations"] = ctx.cov.get("evaluations", 0) + len(items)
     ctx.cov["other_consensus"] = {"cases": len(items), "note": "raftv2: signature clause only; sbp: no clause (theorems C09_raft_*, C09_sbp_*)"}
-    return fails, broken
+    return txt, items, fails
+
+
+def parse_all_named(out, name):
+    """The list printed for definition `name`, or None."""
+    import re
+    flat = " ".join(out.split())
+    m = re.search(r"\b%s = (\[[^\]]*\]|nil)" % re.escape(name), flat)
+    if not m:
+        return None
+    body = m.group(1)
+    return [] if body in ("nil", "[]") else [int(x) for x in re.findall(r"\d+", body)]
 
 
 def parse_all(out):
